@@ -157,6 +157,17 @@ benign("handler-marker-compared-as-bytes-string", "handleConn compares the probe
 benign("writer-frame-count-log", "thermal-writer logs every 1000th frame differently (no data-path change)",
        (TW, "\t\t\tlog.Printf(\"%d frames for this connection\", totalFrames)", "\t\t\tlog.Printf(\"%d frames so far on this connection\", totalFrames)", False))
 
+benign("detector-ctor-helpers", "detector constructor allocates its background through a helper; Reset zeroes its counters through a helper (correct refactor)",
+       (MO, "\td.background = cptvframe.NewFrame(camera)\n\td.background.Status.BackgroundFrame = true\n\td.backgroundWeight = make([][]float32, camera.ResY())\n\tfor i := range d.backgroundWeight {\n\t\td.backgroundWeight[i] = make([]float32, camera.ResX())\n\t}\n\n\treturn d\n}\n",
+        "\td.allocBackground(camera)\n\n\treturn d\n}\n\nfunc (d *motionDetector) allocBackground(camera cptvframe.CameraSpec) {\n\td.background = cptvframe.NewFrame(camera)\n\td.background.Status.BackgroundFrame = true\n\td.backgroundWeight = make([][]float32, camera.ResY())\n\tfor i := range d.backgroundWeight {\n\t\td.backgroundWeight[i] = make([]float32, camera.ResX())\n\t}\n}\n\nfunc (d *motionDetector) restartCounters() {\n\td.backgroundFrames = 0\n\td.count = 0\n}\n", False),
+       (MO, "\td.backgroundFrames = 0\n\td.count = 0\n\td.flooredFrames.Reset()", "\td.restartCounters()\n\td.flooredFrames.Reset()", False))
+
+benign("pretrigger-early-return-single-frame", "recordPreTriggerFrames returns at once when the history holds only the current frame (correct shortcut)",
+       (MP, "\tii := 0\n\n\t// it never writes the current frame as this will be written later\n", "\tii := 0\n\tif len(frames) <= 1 {\n\t\treturn nil\n\t}\n\n\t// it never writes the current frame as this will be written later\n", False))
+
+benign("handler-marker-switch", "handleConn tests the marker with a switch statement (correct refactor)",
+       (MAIN, "\t\tif message == clearBuffer {\n\t\t\tlog.Print(\"clearing motion buffer\")\n\t\t\tprocessor.Reset(headerInfo)\n\t\t\tcontinue\n\t\t}\n", "\t\tswitch message {\n\t\tcase clearBuffer:\n\t\t\tlog.Print(\"clearing motion buffer\")\n\t\t\tprocessor.Reset(headerInfo)\n\t\t\tcontinue\n\t\t}\n", False))
+
 here = os.path.dirname(os.path.abspath(__file__))
 for f in os.listdir(os.path.join(here, "benign")):
     os.unlink(os.path.join(here, "benign", f))
